@@ -3,7 +3,8 @@ import ast
 
 from sa.loader import AnalysisError, norm, walk_local
 from sa.cfg import cfg_of, handler_names
-from .common import analysis, names_in, ends_in_raise, str_consts_compared, eq_texts, true_facts
+from sa.pathsum import summaries
+from .common import assigned_values, analysis, names_in, ends_in_raise, str_consts_compared, eq_texts, true_facts
 
 PROP = "C19"
 TECHNIQUE = "error-mapping discipline of the repository and the retry loop (which handler re-raises which exception); CFG order of the single-injection bookkeeping; sibling agreement of the two schema walkers (_inject_schema vs _parse_schema: reference qualification, namespace tracking, kinds); shared name table in ordered loading"
@@ -96,5 +97,28 @@ def run(ctx):
     loops = [n for n in walk_local(lo.node) if isinstance(n, ast.For)]
     ok = ok and len(loops) == 1 and not any(isinstance(n, (ast.Assign, ast.AnnAssign)) and "named_schemas" in norm(n.target if isinstance(n, ast.AnnAssign) else n.targets[0]) for n in ast.walk(loops[0]))
     ctx.check("C19.R4", "all listed files are loaded against one name table created before the loop", ok, lo.where(), "load_schema_ordered: shared table", "dependencies listed earlier would be unknown to the later files")
-    ok = any(isinstance(n, ast.Assign) and norm(n) == "top_first_order = loaded_schemas[::-1]" for n in walk_local(lo.node)) and any(isinstance(n, ast.Assign) and norm(n) == "outer_schema = top_first_order.pop(0)" for n in walk_local(lo.node)) and any(isinstance(n, ast.Return) and norm(n.value) == "outer_schema" for n in walk_local(lo.node))
-    ctx.check("C19.R4", "the last-listed schema is the result, earlier ones are injected into it", ok, lo.where(), "load_schema_ordered: result selection", "the result must be the last schema of the list with its dependencies inlined")
+    # role: L = the list collecting the loaded schemas; the result must be its last element
+    what = "the last-listed schema is the result, earlier ones are injected into it"
+    why = "the result must be the last schema of the list with its dependencies inlined"
+    L = None
+    for n in walk_local(lo.node):
+        if isinstance(n, ast.Call) and isinstance(n.func, ast.Attribute) and n.func.attr == "append" and isinstance(n.func.value, ast.Name) and len(n.args) == 1:
+            srcs = [n.args[0]] + (assigned_values(lo.node, n.args[0].id) if isinstance(n.args[0], ast.Name) else [])
+            if any(isinstance(v, ast.Call) and isinstance(v.func, ast.Name) and v.func.id == "load_schema" for v in srcs):
+                L = n.func.value.id
+    rets = [s_ for s_ in summaries(cfg_of(lo)) if s_.kind == "return"]
+    if L is None or not rets:
+        ctx.unrecognised("C19.R4", "load_schema_ordered", lo.where(), "the list of loaded schemas / the return were not found")
+    else:
+        last = {f"{L}[::-1].pop(0)", f"list(reversed({L})).pop(0)", f"{L}[-1]", f"{L}.pop()", f"{L}.pop(-1)", f"{L}[::-1][0]", f"{L}[len({L}) - 1]"}
+        first = {f"{L}[0]", f"{L}.pop(0)", f"{L}[::-1].pop()", f"{L}[::-1][-1]", f"list(reversed({L})).pop()"}
+        texts = {r.text for r in rets}
+        inj = [n for n in walk_local(lo.node) if isinstance(n, ast.Call) and isinstance(n.func, ast.Name) and n.func.id == "_inject_schema"]
+        retnames = {norm(n.value) for n in walk_local(lo.node) if isinstance(n, ast.Return) and n.value is not None}
+        inj_ok = bool(inj) and all(c.args and norm(c.args[0]) in retnames for c in inj)
+        if texts <= last and inj_ok:
+            ctx.holds("C19.R4", what, lo.where())
+        elif texts & first or not inj_ok:
+            ctx.violation("C19.R4", what, lo.where(), f"load_schema_ordered: returns {sorted(texts)}; injection into {[norm(c.args[0]) for c in inj if c.args]}", why)
+        else:
+            ctx.unrecognised("C19.R4", "load_schema_ordered", lo.where(), f"result selection `{sorted(texts)}` is not a known spelling of 'last element of {L}'")
